@@ -18,8 +18,8 @@ warnings.simplefilter("ignore")
 US = 10**6
 DAY = 86400 * US
 RULE = "oracle: brute-force datetime.date arithmetic (list every date of the unit with the weekday; nearest strictly later/earlier date)"
-ASSUMPTIONS = ["zone cases: when a midnight on the way (the value's own day or the target day) is skipped or repeated, the landing day is decided by an intermediate "
-               "value's fold (known finding K-C12-1): such cases are accepted only if they land within a day of the right date, and counted",
+ASSUMPTIONS = ["zone cases: when a midnight on the way (the value's own day or the target day) is skipped or repeated the result must still be the brute-force date at its "
+               "first instant (the former known finding K-C12-1 was repaired in a574970; its predicate now reports a violation)",
                "target days that do not exist at all in the zone (Pacific/Apia 2011-12-30) are outside the asserted domain"]
 MIDNIGHT_DST = ["America/Sao_Paulo", "America/Havana", "Asia/Beirut", "America/Asuncion", "America/Santiago", "Asia/Amman", "Asia/Damascus", "Africa/Cairo",
                 "Asia/Tehran", "America/Campo_Grande", "Atlantic/Azores", "Asia/Gaza", "America/Bahia", "Pacific/Apia", "Pacific/Kiritimati", "Europe/Paris", "UTC"]
